@@ -184,6 +184,13 @@ func timeIntrinsics(I map[string]Intrinsic) {
 		}
 		return m.ctx.Udiv(ns, m.ctx.BV(1e9, 64))
 	}
+	I["(time.Time).Nanosecond"] = func(m *Machine, fn *ssa.Function, a []Value) Value {
+		ns := m.timeNS(m.recvTime(a[0]))
+		if m.branch(m.ctx.Slt(ns, m.ctx.BV(0, 64))) {
+			m.unsupported("Nanosecond of a pre-1970 time")
+		}
+		return m.ctx.Urem(ns, m.ctx.BV(1e9, 64))
+	}
 	cmp := func(f func(c *smt.Ctx, x, y *smt.Term) *smt.Term) Intrinsic {
 		return func(m *Machine, fn *ssa.Function, a []Value) Value {
 			return f(m.ctx, m.timeKey(m.recvTime(a[0])), m.timeKey(a[1]))
@@ -267,7 +274,9 @@ func timeIntrinsics(I map[string]Intrinsic) {
 	I["(time.Time).AppendFormat"] = func(m *Machine, fn *ssa.Function, a []Value) Value { return a[1] }
 	I["time.Now"] = func(m *Machine, fn *ssa.Function, a []Value) Value {
 		// only reachable from code whose result the properties do not depend on (last-access stamps, logs)
-		return m.mkTime(m.nondet("aux:now", 64))
+		now := m.nondet("aux:now", 64)
+		m.assume(m.ctx.Ult(now, m.ctx.BV(uint64(1)<<62, 64))) // the wall clock reads between 1970 and 2116
+		return m.mkTime(now)
 	}
 	I["time.Since"] = func(m *Machine, fn *ssa.Function, a []Value) Value { return m.nondet("aux:since", 64) }
 	I["time.Sleep"] = func(m *Machine, fn *ssa.Function, a []Value) Value { return nil }
